@@ -799,6 +799,10 @@ class Translator:
             return f'({self.E(a0, cx)} = {self.E(args[1], cx)})'
         if cls == 'atomic':
             p = self.addr_of(a0, cx)
+            A = self.atomic_prefix(a0)
+            if A != 'ATOMIC':
+                if nm == 'operator++': return f'{A}_PREINC({p})' if len(args) == 1 else f'{A}_POSTINC({p})'
+                if nm == 'operator--': return f'{A}_PREDEC({p})' if len(args) == 1 else f'{A}_POSTDEC({p})'
             if nm == 'operator++': return f'ATOMIC_PREINC({p})' if len(args) == 1 else f'ATOMIC_POSTINC({p})'
             if nm == 'operator--': return f'ATOMIC_PREDEC({p})' if len(args) == 1 else f'ATOMIC_POSTDEC({p})'
             if nm == 'operator=': return f'ATOMIC_STORE({p}, {self.E(args[1], cx)})'
@@ -811,6 +815,21 @@ class Translator:
             if d is not None:
                 return self.call_function(d, self.addr_of(a0, cx), args[1:], cx)
         raise Unsupported(f'operator call {nm} on {t0} in {cx.cname}')
+
+    def atomic_prefix(self, n):
+        """accesses to selected atomic fields go through their own hook macros (unit config atomic_field_hooks)"""
+        m = self.skip(n)
+        while m.get('kind') == 'ImplicitCastExpr' and m.get('castKind') in ('DerivedToBase', 'UncheckedDerivedToBase'):
+            m = self.skip(m['inner'][0])
+        if m.get('kind') == 'MemberExpr':
+            base = m['inner'][0]
+            try:
+                bt = self.ctype(self.qt(base))
+            except Unsupported:
+                return 'ATOMIC'
+            rec = bt.elem.c if bt.cls == 'ptr' and bt.elem else bt.c
+            return self.cfg.get('atomic_field_hooks', {}).get(rec + '.' + m['name'], 'ATOMIC')
+        return 'ATOMIC'
 
     def sp_value(self, n, cx):
         """value of a shared_ptr expression used to initialise / assign another one"""
@@ -1487,7 +1506,7 @@ class Translator:
                 elif t.cls == 'mutex': out.append(f'MUTEX_INIT(&self->{nm});')
                 elif t.cls in ('builtin', 'atomic', 'ptr', 'enum', 'fnptr', 'rawbuf'):
                     out.append(f'/* {nm}: no initialiser -> indeterminate (left nondeterministic) */')
-                elif t.cls == 'list': out.append(f'WLIST_INIT(&self->{nm});')
+                elif t.cls == 'list': out.append(f'WLIST_MEMBER_INIT(&self->{nm}, self, {nm});')
                 elif t.cls == 'condvar': out.append(f'CONDVAR_INIT(&self->{nm});')
                 else: raise Unsupported(f'default-initialisation of field {nm} : {t} in {cx.cname}')
                 continue
@@ -1497,7 +1516,7 @@ class Translator:
             if t.cls == 'mutex':
                 out.append(f'MUTEX_INIT(&self->{nm});'); continue
             if t.cls == 'list':
-                if s.get('kind') == 'CXXConstructExpr' and not s.get('inner'): out.append(f'WLIST_INIT(&self->{nm});'); continue
+                if s.get('kind') == 'CXXConstructExpr' and not s.get('inner'): out.append(f'WLIST_MEMBER_INIT(&self->{nm}, self, {nm});'); continue
                 raise Unsupported(f'list member {nm} is not default-constructed in {cx.cname}')
             if t.cls == 'condvar':
                 out.append(f'CONDVAR_INIT(&self->{nm});'); continue
